@@ -434,6 +434,13 @@ func evalRBAC(rb *rbacpb.RBAC, r *request) bool {
 // written so far. Returns the consulted ext_authz filters, named by the provider part of the id prefix they
 // look for, in chain order.
 func extAuthzAsked(fs []*builtFilter, r *request) []string {
+	labels, _ := extAuthzAskedBy(fs, r)
+	return labels
+}
+
+// extAuthzAskedBy: ... together with the provider part of the id prefix each consulted filter looks for.
+func extAuthzAskedBy(fs []*builtFilter, r *request) ([]string, []string) {
+	var provs []string
 	type key struct{ filter, k string }
 	written := map[key]string{}
 	var order []key
@@ -446,12 +453,13 @@ func extAuthzAsked(fs []*builtFilter, r *request) []string {
 				q.meta = append(q.meta, metaEntry{filter: k.filter, path: []string{k.k}, val: metaVal{s: written[k]}})
 			}
 			if evalMeta(f.extAuthz, &q) {
-				label := "?" + canonMeta(f.extAuthz)
+				// the consulted authorizer is named by its TARGET (kind and upstream cluster of the filter's config)
+				label := f.label
+				prov := "?"
 				if pm, ok := f.extAuthz.GetValue().GetMatchPattern().(*matcherpb.ValueMatcher_StringMatch); ok {
-					if pre := pm.StringMatch.GetPrefix(); strings.HasPrefix(pre, "istio-ext-authz-") {
-						label = strings.TrimPrefix(pre, "istio-ext-authz-")
-					}
+					prov = strings.TrimPrefix(pm.StringMatch.GetPrefix(), "istio-ext-authz-")
 				}
+				provs = append(provs, prov)
 				out = append(out, label)
 			}
 			continue
@@ -475,7 +483,7 @@ func extAuthzAsked(fs []*builtFilter, r *request) []string {
 			}
 		}
 	}
-	return out
+	return out, provs
 }
 
 // evalFilters: ext_authz filters of the CUSTOM action are taken to allow (the external authorizer
